@@ -1,7 +1,7 @@
 (* C11 — being killed at any point never wedges or corrupts: the next build recovers.
    Only the property theorems; proofs in Proofs/C11Facts.v (+ InvFacts, C16, C01).
    A crash state is what is on disk after ANY prefix of the primitive actions of ruler's threads and of the
-   commands (`ruler_step` = every constructor of Inv.step except the user's tampering with the ruler
+   commands (`ruler_step` = every constructor of Inv.step except the user's mv and the user's tampering with the ruler
    directory; every interleaving is a sequence of such steps). After the repair of F3 a state file is
    replaced under its real name by a single rename, so in the model the write is one step; what a kill in
    the middle leaves is a `.partial` file that nothing reads, and by C16 a torn file would be rejected, not
@@ -146,3 +146,55 @@ Proof. exact f6_no_stale_entries_at_sym. Qed.
 Check C11_crash_state_recovers.
 Check C11_every_crash_point_of_a_build.
 Check C11_next_build_after_a_killed_build.
+
+
+(* ---- killed in the middle of a CONCURRENT build (Model/Fine.v) ----
+   `ch` is any list of worker choices, hence any prefix of any interleaving of the rule threads at their
+   cache operations: the state reached is crash_ok, the next build reads its state files, and when it
+   succeeds every target has its from-scratch content. The _tick variant lets the clock advance between
+   the kill and the next invocation; the last theorem is the F6 repair under interleavings: the table on
+   disk never mentions a path a worker may be rewriting. *)
+From Ruler Require Import Inv Ideal BuildSpec InvFacts C01Hist C01Facts C11Facts C02Sym Sched Fine FineFacts FineCorStep FineCor FineStatus FineCorFinal FineCorExamples.
+Local Open Scope nat_scope.
+
+Theorem C11_killed_inside_any_interleaving : forall (w : world sym) rp goal w1 tbl pack hists blobs t' ch goal' w1' tbl' pack',
+  disk_inv sym_eqb SContent w -> hist_sound_sym w -> no_bad_state_files sym sym_eqb w ->
+  init_dir sym w = Ok (w1, tbl) -> get_nodes sym w1 rp goal = Ok pack -> Forall det_node (p_nodes pack) ->
+  read_histories sym sym_eqb SRule w1 (p_nodes pack) = Some hists ->
+  take_blobs sym SContent tbl (worker_paths pack) = (blobs, t') ->
+  let wc := fn_world (frun_sym pack blobs hists ch (fn_start_sym w1 t' pack)) in
+  crash_ok_sym wc /\ cache_addressed sym_eqb SContent wc /\
+  o_verdict (build_sym wc RULES_PATH goal') <> VFatal FTable /\
+  o_verdict (build_sym wc RULES_PATH goal') <> VFatal FHistory /\
+  (init_dir sym wc = Ok (w1', tbl') -> get_nodes sym w1' RULES_PATH goal' = Ok pack' ->
+   Forall det_node (p_nodes pack') ->
+   o_verdict (build_sym wc RULES_PATH goal') = VOk ->
+   forall t, In t (plan_targets pack') ->
+     content_at (o_world (build_sym wc RULES_PATH goal')) t = content_at (scratch_world wc pack') t).
+Proof. exact fine_crash_recovers_sym. Qed.
+Print Assumptions C11_killed_inside_any_interleaving.
+
+Theorem C11_killed_inside_any_interleaving_later : forall (w : world sym) rp goal w1 tbl pack hists blobs t' ch goal' w1' tbl' pack',
+  disk_inv sym_eqb SContent w -> hist_sound_sym w -> no_bad_state_files sym sym_eqb w ->
+  init_dir sym w = Ok (w1, tbl) -> get_nodes sym w1 rp goal = Ok pack -> Forall det_node (p_nodes pack) ->
+  read_histories sym sym_eqb SRule w1 (p_nodes pack) = Some hists ->
+  take_blobs sym SContent tbl (worker_paths pack) = (blobs, t') ->
+  let wc := tick (fn_world (frun_sym pack blobs hists ch (fn_start_sym w1 t' pack))) in
+  crash_ok_sym wc /\ cache_addressed sym_eqb SContent wc /\
+  o_verdict (build_sym wc RULES_PATH goal') <> VFatal FTable /\
+  o_verdict (build_sym wc RULES_PATH goal') <> VFatal FHistory /\
+  (init_dir sym wc = Ok (w1', tbl') -> get_nodes sym w1' RULES_PATH goal' = Ok pack' ->
+   Forall det_node (p_nodes pack') ->
+   o_verdict (build_sym wc RULES_PATH goal') = VOk ->
+   forall t, In t (plan_targets pack') ->
+     content_at (o_world (build_sym wc RULES_PATH goal')) t = content_at (scratch_world wc pack') t).
+Proof. exact fine_crash_recovers_tick_sym. Qed.
+Print Assumptions C11_killed_inside_any_interleaving_later.
+
+Theorem C11_no_stale_table_entry_in_any_interleaving : forall (w1 : world sym) (tbl : table sym) pack hists blobs t' ch,
+  take_blobs sym SContent tbl (worker_paths pack) = (blobs, t') ->
+  let st := frun_sym pack blobs hists ch (fn_start_sym w1 t' pack) in
+  rd_table (w_rd (fn_world st)) = Some (SF_ok t') /\
+  forall p, In p (p_leaves pack) \/ In p (plan_targets pack) -> alookup bytes_eqb t' p = None.
+Proof. exact fine_no_stale_entries_sym. Qed.
+Print Assumptions C11_no_stale_table_entry_in_any_interleaving.
